@@ -238,5 +238,15 @@ def run_case(spec):
                         "vmax": spec['vmax'], "gauge": gclass(spec['member'])})
                 elif sc > 0:
                     res['nontrivial'].append([k, combo, gclass(spec['member']), oname])
+            # second pass: every cached value must still be what was handed out
+            for k in keys:
+                if k.startswith('u.u') or k not in rel.data:
+                    continue
+                res['observations'] += 1
+                w = want[k]
+                val = np.asarray(rel[k])
+                if val.shape == w.shape and np.abs(val - w).max() > TOL * max(np.abs(w).max(), 1e-300) + 1e-12:
+                    common.add_violation(res, f"{k} changed in the cache after later requests [{combo}]",
+                                         {"order": oname})
         del rel
     return res
